@@ -6,6 +6,7 @@ the supported years, so the checked inversion `fromJdn` never fails there and `n
 import Gsu.Proofs.Date
 namespace Gsu.Date
 open Gsu.Gen.Date
+set_option linter.unusedSimpArgs false
 
 /-- year of era and day of year (March based) from the day of era, for
 `doe = 36524·f + 1461·q + r2` (century, 4-year cycle, day of cycle) -/
@@ -51,6 +52,12 @@ theorem yoe_doy (doe yoe doy : Int) (h0 : 0 ≤ doe) (h1 : doe < 146097)
   · exact yoe_doy_aux doe (doe / 36524) (doe % 36524 / 1461) (doe % 36524 % 1461) (by omega) (by omega)
       (by omega) (by omega) (by omega) (by omega) (by omega) (by omega)
 
+/-- the year part of the day number, split by era -/
+theorem jdnE_year (era yoe Y : Int) (y0 : 0 ≤ yoe) (y1 : yoe ≤ 399) (hY : Y = yoe + era * 400 + 4800) :
+    365 * Y + Y / 4 - Y / 100 + Y / 400 =
+      365 * yoe + yoe / 4 - yoe / 100 + 146097 * era + 1753164 := by
+  subst hY; omega
+
 /-- `civil`, with its intermediate values named: the result has day number `n` (floor-division
 form of `julianDayNumber`) and is a calendar day of the supported years -/
 theorem civil_core (n era doe yoe doy mp d m y : Int) (hn0 : 1721060 ≤ n) (hn1 : n ≤ 2816788)
@@ -71,18 +78,102 @@ theorem civil_core (n era doe yoe doy mp d m y : Int) (hn0 : 1721060 ≤ n) (hn1
   have hz : n = era * 146097 + doe + 1721120 := by omega
   have hlo : era = -1 → 146037 ≤ doe := by omega
   have hhi : era = 7 → doe ≤ 72989 := by omega
+  clear hera hdoe hyoe hn0 hn1
   have hylo : era = -1 → yoe = 399 ∧ 306 ≤ doy := by
     intro h; have := hlo h; omega
   have hyhi : era = 7 → yoe ≤ 199 ∧ (yoe = 199 → doy ≤ 306) := by
     intro h; have := hhi h; omega
+  have hJ : ∀ Y : Int, Y = yoe + era * 400 + 4800 →
+      365 * Y + Y / 4 - Y / 100 + Y / 400 = doe - doy + 146097 * era + 1753164 := by
+    intro Y hY; rw [jdnE_year era yoe Y y0 y1 hY]; omega
+  clear hlo hhi hdoy
+  subst hz
   rcases hmpc with h | h | h | h | h | h | h | h | h | h | h | h <;> subst h <;>
     simp only [Int.reduceLT, if_true, if_false, Int.reduceAdd, Int.reduceSub, Int.reduceMul,
       Int.reduceDiv] at hm hd <;> subst hm <;>
     simp only [Int.reduceLE, if_true, if_false] at hy <;>
     simp only [jdnE, daysInMonth, IsLeap, Int.reduceEq, Int.reduceSub, Int.reduceDiv, Int.reduceAdd,
       Int.reduceMul, false_or, or_false, or_true, true_or, if_true, if_false]
-  all_goals first
-    | (refine ⟨?_, ?_, ?_, ?_, ?_, ?_, ?_⟩ <;> omega)
-    | (split_ifs <;> refine ⟨?_, ?_, ?_, ?_, ?_, ?_, ?_⟩ <;> omega)
+  iterate 10
+    · have hJ' := hJ (y + 4800 - 0) (by omega)
+      clear hJ hleap
+      refine ⟨?_, ?_, ?_, ?_, ?_, ?_, ?_⟩ <;> omega
+  · have hJ' := hJ (y + 4800 - 1) (by omega)
+    clear hJ hleap
+    refine ⟨?_, ?_, ?_, ?_, ?_, ?_, ?_⟩ <;> omega
+  · have hJ' := hJ (y + 4800 - 1) (by omega)
+    clear hJ
+    split_ifs with hl
+    · clear hleap
+      refine ⟨?_, ?_, ?_, ?_, ?_, ?_, ?_⟩ <;> omega
+    · refine ⟨?_, ?_, ?_, ?_, ?_, ?_, ?_⟩ <;> omega
+
+/-- `civil` inverts the generated `julianDayNumber` on 0000-01-01 … 3000-01-01 and yields a
+calendar day there -/
+theorem civil_spec (n : Int) (h0 : 1721060 ≤ n) (h1 : n ≤ 2816788) :
+    jdn (civil n).1 (civil n).2.1 (civil n).2.2 = n ∧
+      validYMD (civil n).1 (civil n).2.1 (civil n).2.2 = true := by
+  obtain ⟨hj, m0, m1, d0, d1, y0, y1⟩ :=
+    civil_core n _ _ _ _ _ (civil n).2.2 (civil n).2.1 (civil n).1 h0 h1 rfl rfl rfl rfl rfl rfl rfl rfl
+  refine ⟨?_, ?_⟩
+  · rw [jdn_eq _ _ _ (by omega) m0 m1]; exact hj
+  · simp only [validYMD, Bool.and_eq_true, decide_eq_true_eq]
+    exact ⟨⟨⟨⟨⟨y0, y1⟩, m0⟩, m1⟩, d0⟩, d1⟩
+
+/-- the checked inversion never fails on the supported day numbers -/
+theorem fromJdn_total (n : Int) (h0 : 1721060 ≤ n) (h1 : n ≤ 2816788) : fromJdn n = some (civil n) := by
+  have := civil_spec n h0 h1
+  simp only [fromJdn, this, and_self, if_true]
+
+/-- in year 3000 the only day number up to that of 3000-01-01 is 3000-01-01 itself -/
+theorem jdn_3000 (m d : Int) (m0 : 1 ≤ m) (m1 : m ≤ 12) (d0 : 1 ≤ d) (h : jdn 3000 m d ≤ 2816788) :
+    m = 1 ∧ d = 1 := by
+  rw [jdn_eq _ _ _ (by omega) m0 m1] at h
+  have hm : m = 1 ∨ m = 2 ∨ m = 3 ∨ m = 4 ∨ m = 5 ∨ m = 6 ∨ m = 7 ∨ m = 8 ∨ m = 9 ∨ m = 10 ∨
+      m = 11 ∨ m = 12 := by omega
+  rcases hm with rfl | rfl | rfl | rfl | rfl | rfl | rfl | rfl | rfl | rfl | rfl | rfl <;>
+    simp only [jdnE, Int.reduceSub, Int.reduceDiv, Int.reduceMul, Int.reduceAdd] at h <;> omega
+
+/-- `NormalizeDate` is total on the supported range: when the month-normalised year is not
+absurd and the instant denoted by the (overflowed) fields lies between 0000-01-01 00:00:00.000
+and 3000-01-01 00:00:00.000 inclusive, `normalize` returns a date. -/
+theorem normalize_total (f : Fields) (hy0 : -4000 ≤ normYear f.yr f.mon) (hy1 : normYear f.yr f.mon ≤ 10000)
+    (h0 : 1721060 * 86400000 ≤ absMs f) (h1 : absMs f ≤ 2816788 * 86400000) :
+    ∃ e, normalize f = some e := by
+  obtain ⟨yr, mon, day, hr, mi, sec, ms⟩ := f
+  simp only [absMs] at h0 h1
+  simp only at hy0 hy1
+  simp only [normalize]
+  generalize jdn (normYear yr mon) (normMon mon) 1 = J at h0 h1 ⊢
+  rw [if_neg (by omega)]
+  have hN0 : 1721060 ≤ J + (day - 1) + (hr + (mi + (sec + ms / 1000) / 60) / 60) / 24 := by omega
+  have hN1 : J + (day - 1) + (hr + (mi + (sec + ms / 1000) / 60) / 60) / 24 ≤ 2816788 := by omega
+  have hlast : J + (day - 1) + (hr + (mi + (sec + ms / 1000) / 60) / 60) / 24 = 2816788 →
+      (hr + (mi + (sec + ms / 1000) / 60) / 60) % 24 = 0 ∧ (mi + (sec + ms / 1000) / 60) % 60 = 0 ∧
+        (sec + ms / 1000) % 60 = 0 ∧ ms % 1000 = 0 := by
+    intro h; omega
+  generalize J + (day - 1) + (hr + (mi + (sec + ms / 1000) / 60) / 60) / 24 = N at hN0 hN1 hlast ⊢
+  obtain ⟨hj, hv⟩ := civil_spec N hN0 hN1
+  rw [fromJdn_total N hN0 hN1]
+  simp only []
+  generalize civil N = c at hj hv ⊢
+  obtain ⟨cy, cm, cd⟩ := c
+  simp only at hj hv ⊢
+  have hv' := hv
+  simp only [validYMD, Bool.and_eq_true, decide_eq_true_eq] at hv'
+  obtain ⟨⟨⟨⟨⟨a1, a2⟩, a3⟩, a4⟩, a5⟩, a6⟩ := hv'
+  have h3 : cy = 3000 → cm = 1 ∧ cd = 1 ∧ N = 2816788 := by
+    intro h; subst h
+    obtain ⟨rfl, rfl⟩ := jdn_3000 cm cd a3 a4 a5 (by rw [hj]; exact hN1)
+    refine ⟨rfl, rfl, ?_⟩; rw [← hj]; decide
+  refine ⟨_, if_pos ?_⟩
+  simp only [valid, hv, Bool.true_and, Bool.and_eq_true, decide_eq_true_eq]
+  rw [if_neg]
+  · simp only [Bool.and_eq_true, decide_eq_true_eq]
+    refine ⟨⟨⟨⟨⟨⟨⟨?_, ?_⟩, ?_⟩, ?_⟩, ?_⟩, ?_⟩, ?_⟩, ?_⟩ <;> omega
+  · rintro ⟨hc, hor⟩
+    obtain ⟨e1, e2, e3⟩ := h3 hc
+    obtain ⟨z1, z2, z3, z4⟩ := hlast e3
+    omega
 
 end Gsu.Date
